@@ -231,8 +231,9 @@ def beam_section(b=0.2, h=0.3):
     return _SECTION[key]
 
 
-def beam_simu(dim, elemType, p1, p2, ne=2, timoshenko=False, E=210.0, v=0.3, yAxis=None, section=None):
-    """A real Beam simulation on one straight member from p1 to p2 meshed with `ne` elements."""
+def beam_simu(dim, elemType, p1, p2, ne=2, timoshenko=False, E=210.0, v=0.3, yAxis=None, section=None, nonuniform=0.13):
+    """A real Beam simulation on one straight member from p1 to p2 meshed with `ne` elements (+ one extra node at
+    `nonuniform` x L so that the element lengths differ; None for a uniform mesh)."""
     from EasyFEA import Mesher, Models, Simulations, ElemType
     from EasyFEA.Geoms import Point, Line
 
@@ -244,7 +245,11 @@ def beam_simu(dim, elemType, p1, p2, ne=2, timoshenko=False, E=210.0, v=0.3, yAx
     if yAxis is not None:
         kw["yAxis"] = yAxis
     beam = Models.Beam.Isotropic(dim, line, section, E, v, **kw)
-    mesh = Mesher().Mesh_Beams([beam], elemType=ElemType[elemType])
+    extra = []
+    if nonuniform:
+        q = np.asarray(p1, float) + nonuniform * (np.asarray(p2, float) - np.asarray(p1, float))
+        extra = [Point(*q)]
+    mesh = Mesher().Mesh_Beams([beam], elemType=ElemType[elemType], additionalPoints=extra)
     structure = Models.Beam.BeamStructure([beam])
     simu = Simulations.Beam(mesh, structure, verbosity=False, useTimoshenko=timoshenko)
     return simu, beam, L
